@@ -50,6 +50,20 @@ Fixpoint cell_blocks (bl : list (Z * list nat)) (grids : list (list Z)) (off : n
 Definition cell_ids (grids : list (list Z)) : list (list nat) :=
   map snd (cell_blocks [] grids 0).
 
+(* _export_polyhedron_3d (3-D grids that are not all tetrahedral / all Cartesian): the
+   blocks are written in increasing order of the type (nodes per cell), the order in which
+   meshio groups the cell data when it reads the file back.  For a single type this is
+   cell_ids. *)
+Fixpoint ins_block (b : Z * list nat) (l : list (Z * list nat)) : list (Z * list nat) :=
+  match l with
+  | [] => [b]
+  | x :: r => if (fst b <=? fst x)%Z then b :: l else x :: ins_block b r
+  end.
+Definition sort_blocks (l : list (Z * list nat)) : list (Z * list nat) :=
+  fold_right ins_block [] l.
+Definition cell_ids_3d (grids : list (list Z)) : list (list nat) :=
+  map snd (sort_blocks (cell_blocks [] grids 0)).
+
 (* ---- export / import of one field on one dimension --------------------------- *)
 Section Field.
   Variable A : Type.
@@ -87,11 +101,15 @@ Section Field.
     chop sizes (concat file_blocks).
 
   (* export then import of the arrays  per_entity  (np.hstack in _build_field) *)
-  Definition roundtrip (garbage : list A) (grids : list (list Z)) (per_entity : list (list A))
-    : list (list A) :=
-    let ids := cell_ids grids in
+  Definition roundtrip_ids (garbage : list A) (ids : list (list nat))
+             (per_entity : list (list A)) : list (list A) :=
     import_blocks garbage ids (map (@length A) per_entity)
                   (export_blocks ids (concat per_entity)).
+  Definition roundtrip (garbage : list A) (grids : list (list Z)) (per_entity : list (list A))
+    : list (list A) := roundtrip_ids garbage (cell_ids grids) per_entity.
+  Definition roundtrip_3d (garbage : list A) (grids : list (list Z))
+             (per_entity : list (list A)) : list (list A) :=
+    roundtrip_ids garbage (cell_ids_3d grids) per_entity.
 End Field.
 
 (* ---- pvd: the time step to restart from --------------------------------------- *)
@@ -106,12 +124,15 @@ Fixpoint latest (l : list Z) : option Z :=
   end.
 (* entries = the DataSet lines of the pvd file: (timestep attribute, file).  The timestep
    attribute is whatever was passed as write_pvd(times=...) (physical times; by default the
-   time-step indices); it is held as an integer in units of 1/unit.  The files imported are
-   those LISTED with the latest timestep; the returned index is int(float(timestep)). *)
-Definition restart_files {F} (unit : Z) (entries : list (Z * F)) : option (Z * list F) :=
+   time-step indices), held as an integer in some fixed unit.  The files imported are those
+   LISTED with the latest timestep; the returned time index is the numeric suffix of the
+   first of them (as repaired). *)
+Definition restart_files {F} (suffix : F -> Z) (entries : list (Z * F)) : option (Z * list F) :=
   match latest (map fst entries) with
   | None => None
-  | Some m => Some (Z.quot m unit, map snd (filter (fun e => Z.eqb (fst e) m) entries))
+  | Some m =>
+      let fs := map snd (filter (fun e => Z.eqb (fst e) m) entries) in
+      Some (match fs with f :: _ => suffix f | [] => 0%Z end, fs)
   end.
 
 (* ---- time information ---------------------------------------------------------- *)
@@ -181,16 +202,17 @@ Definition llz_eqb (a b : list (list Z)) : bool :=
 
 (* one dimension of one export/import: the real cell ids, the real file blocks and the
    values found on the entities after the import against the model *)
-Definition dim_agree (grids : list (list Z)) (ids : list (list nat))
+Definition dim_agree (three_d : bool) (grids : list (list Z)) (ids : list (list nat))
            (per_entity : list (list Z)) (file_blocks : list (list Z))
            (restored : list (list Z)) : bool :=
-  llnat_eqb (cell_ids grids) ids
+  llnat_eqb (if three_d then cell_ids_3d grids else cell_ids grids) ids
   && llz_eqb (export_blocks Z 0%Z ids (concat per_entity)) file_blocks
   && llz_eqb (import_blocks Z (repeat (-77)%Z (length (concat per_entity))) ids
                             (map (@length Z) per_entity) file_blocks) restored.
 
-Definition pvd_agree (entries : list (Z * nat)) (picked : option (Z * list nat)) : bool :=
-  match restart_files 1024%Z entries, picked with
+Definition pvd_agree (suffixes : list Z) (entries : list (Z * nat))
+           (picked : option (Z * list nat)) : bool :=
+  match restart_files (fun i => nth i suffixes (-1)%Z) entries, picked with
   | None, None => true
   | Some (m, fs), Some (m', fs') => Z.eqb m m' && lnat_eqb fs fs'
   | _, _ => false
